@@ -234,6 +234,16 @@ def _case_terms(case, part):
             out.append(("C05:hash-unstable", {"term": texts[0]}))
         if u == v and str(u.expr) == str(v.expr) and hash(u) != hash(v):
             out.append(("C05:hash-eq", {"terms": texts[:2]}))
+        # every result belongs to the registry of its (left) operand -- also the degenerate ones (u**0, u/u)
+        if reg is not None:
+            for nm, r_ in (("u*v", u * v), ("u/v", u / v), ("u**p", u**pp), ("u**0", u**0), ("u/u", u / u), ("(u**0)*v", (u**0) * v), ("u**-1", u**-1),
+                           ("simplify", (u * v).simplify()), ("as_coeff_unit", (u * v).simplify().as_coeff_unit()[1]), ("copy", u.copy())):
+                if r_.registry is not reg and getattr(r_.registry, "lut", None) is not reg.lut:
+                    out.append((f"C05:result-left-its-registry:{nm}", {"terms": texts, "p": str(p)}))
+            # identity written either way hashes like the unit itself (same expression, same registry state)
+            ident = u**0
+            if str((ident * v).expr) == str(v.expr) == str((v * ident).expr) and not (hash(ident * v) == hash(v * ident) == hash(v)):
+                out.append(("C05:hash-depends-on-identity-factor", {"term": texts[1]}))
         # simplify / as_coeff_unit on a fresh object (simplify mutates in place)
         fresh = u * v / w
         before = facts(fresh)
@@ -249,6 +259,24 @@ def _case_terms(case, part):
         _sync(cu, reg, "as_coeff_unit", out, "*".join(texts))
         if not (simp == prod):
             out.append(("C05:simplify-not-equal", {"terms": texts}))
+        if reg is not None:
+            # a registry edit between two uses: what simplify()/as_coeff_unit() say must follow the current contents
+            def _coeff_ok(tag):
+                w_ = Unit("code_length", registry=reg) * Unit("kcode_length", registry=reg) ** 2 / Unit("cm", registry=reg) ** 3
+                before_ = facts(w_)
+                sw = w_.simplify()
+                co, cu_ = sw.as_coeff_unit()
+                fc_ = facts(cu_)
+                if fc_[1] != before_[1] or _rel(float(co) * fc_[0], before_[0]) > 1e-11:
+                    out.append((f"C05:as_coeff_unit-after-registry-edit:{tag}", {"coeff": float(co), "unit": fc_, "carried": before_}))
+                _sync(sw, reg, f"simplify-after-registry-edit:{tag}", out, "code_length*kcode_length**2/cm**3")
+            _coeff_ok("before")
+            reg.modify("code_length", 7.5e18)
+            _coeff_ok("modify")
+            reg.remove("code_mass")
+            reg.add("code_mass", 4.0e30, Unit("kg").dimensions)
+            reg.add("code_length", 1.25e20, Unit("m").dimensions, prefixable=True)
+            _coeff_ok("re-add")
     except InvalidUnitOperation:
         part.count("InvalidUnitOperation in compound law (offset/log unit present)")
     except Exception as e:
